@@ -138,8 +138,14 @@ class ImageBatch(DataTensor):
                 split_grids = []
                 tensor_indices_or_sections = args[1]
                 if isinstance(tensor_indices_or_sections, int):
-                    for start in range(0, len(grids), tensor_indices_or_sections):
-                        split_grids.append(grids[start : start + tensor_indices_or_sections])
+                    # number of sections: the first (N mod sections) chunks have one more item
+                    sections = tensor_indices_or_sections
+                    quot, rem = divmod(len(grids), sections)
+                    start = 0
+                    for i in range(sections):
+                        num = quot + 1 if i < rem else quot
+                        split_grids.append(grids[start : start + num])
+                        start += num
                 elif isinstance(tensor_indices_or_sections, Sequence):
                     indices = list(tensor_indices_or_sections)
                     for start, end in zip([0] + indices, indices + [len(grids)]):
